@@ -53,8 +53,16 @@ def gen_closed(r, tier):
         loop = streams.loop_tok(r, kind)
         ops.append(f"#case closed kind={kind}")
         ns = 1 if lo > 0 else 0
-        ops.append(f"w.new kind=hwmon ns={ns} win=10 minp={lo} maxp={hi} startp={lo} avg=x408f400000000000 map={closed_map(r)} {loop} "
-                   f"resp=id pwm={r.range(0,255)} rpm=900 origmode=2 origpwm=0")
+        startp, rpm_tok = lo, "avg=x408f400000000000"
+        rpm = 900
+        if r.chance(0.15):
+            # a fan that is allowed to stop, stands still (0 RPM) and has a start PWM well above its minimum: the steady request
+            # is still the curve's (seed C04k: a spin-up safeguard replaced small requests by the start PWM while the RPM read 0)
+            ns, rpm, rpm_tok = 0, 0, "avg=x0000000000000000"
+            lo = 0   # GetMinPwm of a fan that may stop is 0
+            startp = min(hi, r.range(2, 80))
+        ops.append(f"w.new kind=hwmon ns={ns} win=10 minp={lo} maxp={hi} startp={startp} {rpm_tok} map={closed_map(r)} {loop} "
+                   f"resp=id pwm={r.range(0,255)} rpm={rpm} origmode=2 origpwm=0")
         now = r.range(1, 10**12)
         tick = r.pick([50_000_000, 200_000_000, 200_000_000, 1_000_000_000, 2_000_000_000])
         # prior history: arbitrary curve trajectory incl. long idling at 0 or 255
